@@ -247,8 +247,9 @@ def step (u : Unit) (line : String) : Unit × String :=
                   else if !topoOK t || !puOK t || !memOK t || !numaOK t || !sibOK t then
                     (u, "load HYP-FAIL" ++ (if topoOK t then "" else " topoOK") ++ (if puOK t then "" else " puOK") ++
                       (if memOK t then "" else " memOK") ++ (if numaOK t then "" else " numaOK") ++ (if sibOK t then "" else " sibOK"))
-                  -- C07_order_establishes_sib_partial: the two halves of sibOK and the PU count as a product of the arities
-                  else if !(sibNormalOK t && sibMemOK t) || prodL (arities t) != t.puIdx.length then (u, "load HYP-FAIL order")
+                  -- C07_order_establishes_sib_partial / C07_buildTopo_sib_normal: `sibOK t` above is `sibNormalOK t && sibMemOK t` by
+                  -- definition (Hw.Syn.sibOK_split, rfl); the PU count is the product of the arities
+                  else if prodL (arities t) != t.puIdx.length then (u, "load HYP-FAIL order")
                   else (u, "load ok regular")
               else
                 let what := if a.levels != t.levels then "levels" else if a.rootMem != t.rootMem then "rootmem"
